@@ -71,8 +71,10 @@ def _gen_case(case_seed, modes, delays_in_plain=True, plain_delay_p=0.15, far_p=
         if r.random() < 0.3:
             vol["spec"] = {"kind": "time_threshold", "cycle": netgen.nice(r.uniform(2, 40)),
                            "vdiv": netgen.nice(v0 * r.uniform(1.3, 3.0)), "noise": r.choice([0.0, 0.05, 0.2])}
+    # the plain simulator has no clock of its own: there (and only there) non-uniform grids are legal input as well
+    nonuniform = mode == "ssa" and r.random() < 0.25
     grid = netgen.gen_grid(r, model, vol=(vol or {}).get("v0"),
-                           target_events=400 if stratum == "absorb" else None)
+                           target_events=400 if stratum == "absorb" else None, uniform=not nonuniform)
     dt = grid[1] - grid[0]
     if vol and vol.get("spec"):
         # keep the total growth bounded (<= 2^4) even if the cell never divides: zero-order rates scale with the volume
@@ -94,6 +96,8 @@ def _gen_case(case_seed, modes, delays_in_plain=True, plain_delay_p=0.15, far_p=
         kinds += [k for k in ("neg_delay", "late_delay") if r.random() < 0.5]
     script = eng.gen_script(r, kinds) if kinds and r.random() < 0.6 else []
     entry = "direct" if (mode == "delayvolume" or (vol and vol.get("spec"))) else r.choice(["direct", "model"])
+    if nonuniform and len(grid) >= 3 and any(abs((grid[i + 1] - grid[i]) - (grid[1] - grid[0])) > 1e-12 for i in range(len(grid) - 1)):
+        kinds = kinds + ["nonuniform_grid"]
     return {"model": model, "grid": grid, "mode": mode, "safe": safe, "entry": entry, "vol": vol,
             "bseed": seeds.bioscrape_seed(case_seed, "run"), "script": script, "kinds": kinds, "stratum": stratum}
 
@@ -130,6 +134,8 @@ def fault_counters(case, raw, ref, stats):
             stats["fired_tiny_delay"] = stats.get("fired_tiny_delay", 0) + 1
         if any(d > grid[-1] for _, d in ref.delays):
             stats["fired_late_delay"] = stats.get("fired_late_delay", 0) + 1
+    if "nonuniform_grid" in case.get("kinds", []):
+        stats["fired_nonuniform_grid"] = stats.get("fired_nonuniform_grid", 0) + 1
     if raw.get("script_used"):
         stats["scripted_runs"] = stats.get("scripted_runs", 0) + 1
         stats["scripted_uniforms"] = stats.get("scripted_uniforms", 0) + int(raw["script_used"])
